@@ -153,6 +153,17 @@ CLAIMED = {
         "Trusted: the solver itself is an oracle; the un-normalised solve succeeds.",
         "DESIGN.md section 5 C20",
     ),
+    "C18": (
+        "Lean 4 theorems about a model of the ordered persistence effects of one call (membership lemma + case analysis) + bridge lemmas to key templates / flags / guards re-translated from source + one-process-per-configuration correspondence with a recording S3 client",
+        "nothing_by_default / results_only_nonlocal / results_written / conformalization_only_if_asked / conformalization_any_env / "
+        "data_config_local_only / local_no_puts / saved_before_gate / live_results_first / one_prediction_per_table / keys_under_root hold "
+        "for every combination of options, environment, estimator, request lists and gate outcome. The f-string key templates, the four "
+        "save flags, the default, the APP_ENV guards, the gaussian write guard and the position of the live-results write relative to the "
+        "gate are re-read from /repo/src each run (bridge lemmas by rfl). Each configuration (incl. two-call histories on one client) runs "
+        "in its own process with boto3.client replaced before import; ordered keys and local files are compared with the model.",
+        "Trusted: the recording client; S3CsvUtil.put's '.csv' suffix rule; parameters free of whitespace.",
+        "DESIGN.md section 5 C18",
+    ),
 }
 
 PENDING_REASON = "check not built yet in this session (model and correspondence in progress); not claimed until it is"
